@@ -1127,11 +1127,15 @@ def assemble(unit, src):
             emit_mod(sub, p)
             out.emit('} // mod %s\n\n' % name)
 
-    def emit_fn(f, fs, qual, in_trait_impl=False, in_trait_decl=False, extra_generics=None):
+    def emit_fn(f, fs, qual, in_trait_impl=False, in_trait_decl=False, extra_generics=None, assoc=None):
         asm = FnAsm(f, fs, qual)
         asm.extra_generics = extra_generics or []
         start = out.line
         for text, meta in asm.build(in_trait_impl, in_trait_decl):
+            if assoc and meta is not None and meta.get('kind') in ('signature', 'body'):
+                # a trait-impl method emitted as an inherent method: `Self::Assoc` no longer resolves; substitute its definition
+                for an, at in assoc.items():
+                    text = re.sub(r'\bSelf::%s\b' % re.escape(an), at, text)
             out.emit(text, meta)
         out.fn_ranges.append((start, out.line, qual, fs.tags if fs else []))
         sha = hashlib.sha256(f.src[f.header_start:f.end].encode()).hexdigest()[:16]
@@ -1145,6 +1149,8 @@ def assemble(unit, src):
             t = 'pub ' + t
         if in_trait:
             t = re.sub(r'^pub\s+', '', t)
+        # R13c: inside verus! a const becomes a function, where an elided reference lifetime is not allowed
+        t = re.sub(r"&\s*str\b", "&'static str", t.split('=')[0]) + ('=' + '='.join(t.split('=')[1:]) if '=' in t else '')
         if opts.get('external'):
             out.emit('#[verifier::external_body]\n', {'kind': 'assumption', 'fn': qual, 'tags': [],
                                                       'text': 'external_body const %s (contents given by an axiom discharged in Kani)' % qual})
@@ -1233,9 +1239,15 @@ def assemble(unit, src):
                         (keep_g if re.search(r'(?<![\w])%s\b' % re.escape(nm), ty) else move_g).append(prm)
                 ih = 'impl%s %s %s' % (('<' + ', '.join(keep_g) + '>') if keep_g else '', ty, wh)
                 out.emit(norm_ws(ih) + ' {\n')
+                assoc = {}
+                for c in it.children:
+                    if c.kind == 'type':
+                        m_ = re.match(r'^type\s+(\w+)\s*=\s*(.*?);$', norm_header(c.src[c.header_start:c.end]))
+                        if m_:
+                            assoc[m_.group(1)] = m_.group(2)
                 for f, fs in inherent_moves:
                     qual = '%s::<%s for %s>::%s' % (mp, tr, ty, f.name)
-                    emit_fn(f, fs, qual, extra_generics=move_g)
+                    emit_fn(f, fs, qual, extra_generics=move_g, assoc=assoc)
                 out.emit('}\n')
             return
         raise Undecided('cannot emit item kind %s' % it.kind)
